@@ -514,7 +514,7 @@ func branchGuardsWritten(c *Ctx, rule string) {
 		})
 	}
 	c.count("branch_loops_in_formatter", n)
-	c.floor(rule, 2)
+	c.floor(rule, 1)
 }
 
 // writesUnconditionally: every if statement of the helper is an error check (`err != nil`), and it has no loop that
@@ -656,4 +656,492 @@ func shiftProbeOnWholeSource(c *Ctx, rule string) {
 	}
 	c.count("shift_probes", n)
 	c.floor(rule, 1)
+}
+
+// parallelSlicesCutAlike: C09.R15 — two slices that describe the same lines (the formatted lines of an expression and
+// the per-line "write verbatim" flags; made parallel by `flags = make([]bool, len(lines))`, possibly in a helper that
+// returns both) are cut with the same bounds wherever a function returns them: `return lines[1:len(lines)-1], flags`
+// shifts every flag by one line, and the continuation line of a raw string is re-indented on every run.
+func parallelSlicesCutAlike(c *Ctx, rule string) {
+	p := c.pkg("parser/v2")
+	info := p.TypesInfo
+	// pairs made parallel inside a function: Y = make(T, len(X))
+	madeParallel := func(fd *ast.FuncDecl) [][2]types.Object {
+		var out [][2]types.Object
+		ast.Inspect(fd.Body, func(x ast.Node) bool {
+			as, ok := x.(*ast.AssignStmt)
+			if !ok || len(as.Lhs) != len(as.Rhs) {
+				return true
+			}
+			for i, r := range as.Rhs {
+				call, ok := ast.Unparen(r).(*ast.CallExpr)
+				if !ok || len(call.Args) != 2 || types.ExprString(call.Fun) != "make" {
+					continue
+				}
+				lc, ok := ast.Unparen(call.Args[1]).(*ast.CallExpr)
+				if !ok || len(lc.Args) != 1 || types.ExprString(lc.Fun) != "len" {
+					continue
+				}
+				xid, ok1 := ast.Unparen(lc.Args[0]).(*ast.Ident)
+				yid, ok2 := as.Lhs[i].(*ast.Ident)
+				if ok1 && ok2 {
+					out = append(out, [2]types.Object{info.ObjectOf(xid), info.ObjectOf(yid)})
+				}
+			}
+			return true
+		})
+		return out
+	}
+	// result positions of a function that are parallel: every return hands back a parallel pair uncut
+	parallelResults := map[types.Object][2]int{}
+	for _, fd := range allFuncDecls(p) {
+		if fd.Body == nil || fd.Type.Results == nil {
+			continue
+		}
+		for _, pr := range madeParallel(fd) {
+			ix, iy, okAll := -1, -1, true
+			ast.Inspect(fd.Body, func(x ast.Node) bool {
+				if _, isLit := x.(*ast.FuncLit); isLit {
+					return false
+				}
+				ret, ok := x.(*ast.ReturnStmt)
+				if !ok {
+					return true
+				}
+				ret = explicitReturn(info, ret)
+				fx, fy := -1, -1
+				for k, r := range ret.Results {
+					if id, ok := ast.Unparen(r).(*ast.Ident); ok {
+						if info.ObjectOf(id) == pr[0] {
+							fx = k
+						}
+						if info.ObjectOf(id) == pr[1] {
+							fy = k
+						}
+					}
+				}
+				if fx < 0 || fy < 0 || ix >= 0 && (ix != fx || iy != fy) {
+					okAll = false
+				}
+				ix, iy = fx, fy
+				return true
+			})
+			if okAll && ix >= 0 {
+				parallelResults[info.Defs[fd.Name]] = [2]int{ix, iy}
+			}
+		}
+	}
+	n := 0
+	for _, fd := range allFuncDecls(p) {
+		if fd.Body == nil {
+			continue
+		}
+		pairs := madeParallel(fd)
+		ast.Inspect(fd.Body, func(x ast.Node) bool {
+			as, ok := x.(*ast.AssignStmt)
+			if !ok || len(as.Rhs) != 1 {
+				return true
+			}
+			call, ok := ast.Unparen(as.Rhs[0]).(*ast.CallExpr)
+			if !ok {
+				return true
+			}
+			if fn := calleeOf(info, call); fn != nil {
+				if pr, ok := parallelResults[types.Object(fn)]; ok && pr[0] < len(as.Lhs) && pr[1] < len(as.Lhs) {
+					xi, ok1 := as.Lhs[pr[0]].(*ast.Ident)
+					yi, ok2 := as.Lhs[pr[1]].(*ast.Ident)
+					if ok1 && ok2 {
+						pairs = append(pairs, [2]types.Object{info.ObjectOf(xi), info.ObjectOf(yi)})
+					}
+				}
+			}
+			return true
+		})
+		if len(pairs) == 0 {
+			continue
+		}
+		// the cut applied to an operand: "" (whole), or "lo:hi" with len(<either of the pair>) written as len(·)
+		cutOf := func(e ast.Expr, pr [2]types.Object) (types.Object, string, bool) {
+			norm := func(b ast.Expr) string {
+				if b == nil {
+					return ""
+				}
+				s := types.ExprString(b)
+				s = strings.ReplaceAll(s, "len("+pr[0].Name()+")", "len(·)")
+				s = strings.ReplaceAll(s, "len("+pr[1].Name()+")", "len(·)")
+				return s
+			}
+			switch v := ast.Unparen(e).(type) {
+			case *ast.Ident:
+				return info.ObjectOf(v), "", true
+			case *ast.SliceExpr:
+				if id, ok := ast.Unparen(v.X).(*ast.Ident); ok {
+					return info.ObjectOf(id), norm(v.Low) + ":" + norm(v.High), true
+				}
+			}
+			return nil, "", false
+		}
+		ast.Inspect(fd.Body, func(x ast.Node) bool {
+			ret, ok := x.(*ast.ReturnStmt)
+			if !ok {
+				return true
+			}
+			for _, pr := range pairs {
+				cx, cy := "", ""
+				hx, hy := false, false
+				for _, r := range ret.Results {
+					if ob, cut, ok := cutOf(r, pr); ok {
+						if ob == pr[0] {
+							cx, hx = cut, true
+						}
+						if ob == pr[1] {
+							cy, hy = cut, true
+						}
+					}
+				}
+				if !hx || !hy {
+					continue
+				}
+				n++
+				c.check(cx == cy, rule, fmt.Sprintf("%s|%s~%s|cut-alike", funcKey(p, fd), pr[0].Name(), pr[1].Name()), c.pos(ret.Pos()), "both slices of the pair are returned with the same bounds",
+					fmt.Sprintf("%s returns %s cut as [%s] but %s cut as [%s]: the two describe the same lines, so every flag now belongs to another line — a line that continues a raw string literal is re-indented (and its neighbour is not) on every run of the formatter", fd.Name.Name, pr[0].Name(), cx, pr[1].Name(), cy))
+			}
+			return true
+		})
+	}
+	c.count("parallel_slice_returns", n)
+	c.floor(rule, 1)
+}
+
+// derivedNodesKeepTheirChildren: C08.R14 — where the formatter builds a node of the receiver's own type out of the
+// receiver (the rest of an if-chain as an IfExpression, a copy with one list replaced) and goes on to write it, the
+// literal gives every field that holds child nodes or expressions a value: a field it leaves out is written as empty,
+// and that part of the template disappears from the formatted file.
+func derivedNodesKeepTheirChildren(c *Ctx, rule string) {
+	p := c.pkg("parser/v2")
+	info := p.TypesInfo
+	holdsNodes := func(t types.Type) bool {
+		s := t.String()
+		return strings.HasSuffix(s, pkgParser+".Node") || strings.Contains(s, "[]"+pkgParser+".") || strings.HasSuffix(s, pkgParser+".Expression")
+	}
+	n := 0
+	for _, fd := range allFuncDecls(p) {
+		if fd.Body == nil || fd.Recv == nil || len(fd.Recv.List) != 1 {
+			continue
+		}
+		rt := info.TypeOf(fd.Recv.List[0].Type)
+		if pt, ok := rt.(*types.Pointer); ok {
+			rt = pt.Elem()
+		}
+		st, ok := rt.Underlying().(*types.Struct)
+		if !ok {
+			continue
+		}
+		// only methods that write (take an io.Writer)
+		writes := false
+		for _, prm := range paramObjs(info, fd) {
+			if prm != nil && prm.Type().String() == "io.Writer" {
+				writes = true
+			}
+		}
+		if !writes {
+			continue
+		}
+		ast.Inspect(fd.Body, func(x ast.Node) bool {
+			cl, ok := x.(*ast.CompositeLit)
+			if !ok {
+				return true
+			}
+			if t := info.TypeOf(cl); t == nil || !types.Identical(t, rt) {
+				return true
+			}
+			set := map[string]bool{}
+			keyed := true
+			for _, el := range cl.Elts {
+				kv, ok := el.(*ast.KeyValueExpr)
+				if !ok {
+					keyed = false
+					continue
+				}
+				if k, ok := kv.Key.(*ast.Ident); ok {
+					set[k.Name] = true
+				}
+			}
+			if !keyed {
+				return true // positional literal: the compiler demands every field
+			}
+			n++
+			var missing []string
+			for i := 0; i < st.NumFields(); i++ {
+				f := st.Field(i)
+				if holdsNodes(f.Type()) && !set[f.Name()] {
+					missing = append(missing, f.Name())
+				}
+			}
+			c.check(len(missing) == 0, rule, fmt.Sprintf("%s|%s{…}|keeps-children", funcKey(p, fd), types.ExprString(cl.Type)), c.pos(cl.Pos()), "every field that holds nodes or expressions is given a value",
+				fmt.Sprintf("%s builds a %s out of its receiver and leaves out %s: the formatter writes the derived node, so that part of the template (an else branch, a list of children) is missing from the formatted file, which then renders differently", fd.Name.Name, types.ExprString(cl.Type), strings.Join(missing, ", ")))
+			return true
+		})
+	}
+	c.count("derived_node_literals_in_formatter", n)
+	if n == 0 {
+		c.ok(rule, p.PkgPath+"|no-derived-nodes", "", "the formatter builds no node of its receiver's type")
+	}
+}
+
+// generatorDoesNotAskTheFormatter: C08.R15 — what a template renders does not depend on how the formatter would lay it
+// out. The Write(io.Writer, indent) methods of the parser's node types ARE the formatter; the generator never calls
+// one. If it did (to "reuse" a decision such as whether a whitespace node collapses to a space), a condition that is
+// about layout — does the whitespace contain a line break? — would decide what is rendered, and `templ fmt`, which
+// changes exactly such things, would change the output.
+func generatorDoesNotAskTheFormatter(c *Ctx, rule string) {
+	gp := c.pkg("generator")
+	info := gp.TypesInfo
+	n := 0
+	for _, fd := range allFuncDecls(gp) {
+		if fd.Body == nil {
+			continue
+		}
+		ast.Inspect(fd.Body, func(x ast.Node) bool {
+			call, ok := x.(*ast.CallExpr)
+			if !ok {
+				return true
+			}
+			fn := calleeOf(info, call)
+			if fn == nil || fn.Name() != "Write" || fn.Pkg() == nil || fn.Pkg().Path() != pkgParser {
+				return true
+			}
+			sig, ok := fn.Type().(*types.Signature)
+			if !ok || sig.Recv() == nil || sig.Params().Len() != 2 || sig.Params().At(0).Type().String() != "io.Writer" {
+				return true
+			}
+			n++
+			c.viol(rule, fmt.Sprintf("%s|calls-formatter:%s", funcKey(gp, fd), types.ExprString(call.Fun)), c.pos(call.Pos()),
+				fmt.Sprintf("%s calls %s, a formatter method, to decide what to emit: the rendered output now depends on a layout property of the source (which `templ fmt` changes), so formatting a template changes what it renders", fd.Name.Name, types.ExprString(call.Fun)))
+			return true
+		})
+	}
+	c.count("formatter_calls_in_generator", n)
+	c.ok(rule, pkgGenerator+"|scanned", "", fmt.Sprintf("%d calls of formatter methods in the generator", n))
+}
+
+// goFileNameKeepsItsDirectory: C08.R16 — the import fixer (x/tools imports.Process) decides which imports a file needs
+// by looking at the OTHER files of the package, which it finds through the directory of the file name it is given. The
+// function that turns a template's path into the generated file's path therefore keeps the directory: what it returns
+// is built from the whole path (or from the directory part next to the base name), never from the base name alone.
+// With the directory gone, identifiers the package declares itself (`var log`, `var path`) are taken for missing
+// imports, and `templ fmt` adds imports that change — or break — the program.
+func goFileNameKeepsItsDirectory(c *Ctx, rule string) {
+	p := c.pkg("cmd/templ/imports")
+	info := p.TypesInfo
+	n := 0
+	for _, fd := range allFuncDecls(p) {
+		if fd.Body == nil {
+			continue
+		}
+		names := false
+		ast.Inspect(fd.Body, func(m ast.Node) bool {
+			if e, ok := m.(ast.Expr); ok {
+				if s, isC := constString(info, e); isC && strings.HasSuffix(s, "_templ.go") {
+					names = true
+				}
+			}
+			return true
+		})
+		var param types.Object
+		for _, prm := range paramObjs(info, fd) {
+			if prm != nil && isStringType(prm.Type()) && param == nil {
+				param = prm
+			}
+		}
+		if !names || param == nil {
+			continue
+		}
+		n++
+		// what may hold the directory: the parameter itself, result 0 of path.Split / filepath.Split, path.Dir
+		hasDir := map[types.Object]bool{param: true}
+		baseOnly := map[types.Object]bool{}
+		ast.Inspect(fd.Body, func(m ast.Node) bool {
+			as, ok := m.(*ast.AssignStmt)
+			if !ok || len(as.Rhs) != 1 {
+				return true
+			}
+			call, ok := ast.Unparen(as.Rhs[0]).(*ast.CallExpr)
+			if !ok {
+				return true
+			}
+			fn := calleeOf(info, call)
+			if fn == nil || fn.Pkg() == nil || (fn.Pkg().Path() != "path" && fn.Pkg().Path() != "path/filepath") {
+				return true
+			}
+			ids := func(k int) types.Object {
+				if k < len(as.Lhs) {
+					if id, ok := as.Lhs[k].(*ast.Ident); ok {
+						return info.ObjectOf(id)
+					}
+				}
+				return nil
+			}
+			switch fn.Name() {
+			case "Split":
+				if o := ids(0); o != nil {
+					hasDir[o] = true
+				}
+				if o := ids(1); o != nil {
+					baseOnly[o] = true
+				}
+			case "Dir":
+				if o := ids(0); o != nil {
+					hasDir[o] = true
+				}
+			case "Base":
+				if o := ids(0); o != nil {
+					baseOnly[o] = true
+				}
+			}
+			return true
+		})
+		bad := ""
+		ast.Inspect(fd.Body, func(m ast.Node) bool {
+			ret, ok := m.(*ast.ReturnStmt)
+			if !ok {
+				return true
+			}
+			for _, r := range ret.Results {
+				if t := info.TypeOf(r); t == nil || !isStringType(t) {
+					continue
+				}
+				if _, isC := constString(info, r); isC {
+					continue
+				}
+				dir := false
+				ast.Inspect(r, func(q ast.Node) bool {
+					switch y := q.(type) {
+					case *ast.CallExpr:
+						if fn := calleeOf(info, y); fn != nil && fn.Name() == "Base" {
+							return false // what is under Base(...) has lost its directory
+						}
+					case *ast.Ident:
+						if hasDir[info.ObjectOf(y)] {
+							dir = true
+						}
+					}
+					return true
+				})
+				if !dir {
+					bad = types.ExprString(r)
+				}
+			}
+			return true
+		})
+		c.check(bad == "", rule, funcKey(p, fd)+"|keeps-directory", c.pos(fd.Pos()), "the generated file's name is built from the whole template path",
+			fmt.Sprintf("%s returns %s, which is built from the base name alone: the import fixer is given a file name without its directory, cannot see the package's other files, and adds imports for identifiers the package declares itself — `templ fmt` then changes what the template compiles to", fd.Name.Name, bad))
+	}
+	c.count("templ_to_go_name_functions", n)
+	c.floor(rule, 1)
+}
+
+// flushedBuildersAreReset: C02.R23 — a closure that emits what a builder has collected so far (it reads the builder's
+// String() / Bytes() and the builder lives outside the closure) and that can run more than once (it is called at two
+// places, or inside a loop) empties the builder when it has emitted it. Otherwise every later flush emits everything
+// again: constant CSS declarations written before an expression are repeated after it and override it.
+func flushedBuildersAreReset(c *Ctx, rule string, rels ...string) {
+	n := 0
+	for _, rel := range rels {
+		p := c.pkg(rel)
+		if p == nil {
+			continue
+		}
+		info := p.TypesInfo
+		for _, fd := range allFuncDecls(p) {
+			if fd.Body == nil {
+				continue
+			}
+			// closures held by locals
+			ast.Inspect(fd.Body, func(x ast.Node) bool {
+				as, ok := x.(*ast.AssignStmt)
+				if !ok || len(as.Lhs) != len(as.Rhs) {
+					return true
+				}
+				for i, r := range as.Rhs {
+					lit, ok := ast.Unparen(r).(*ast.FuncLit)
+					if !ok {
+						continue
+					}
+					fid, ok := as.Lhs[i].(*ast.Ident)
+					if !ok {
+						continue
+					}
+					fobj := info.ObjectOf(fid)
+					// builders read in the literal that are declared outside it
+					read := map[types.Object]bool{}
+					reset := map[types.Object]bool{}
+					ast.Inspect(lit.Body, func(m ast.Node) bool {
+						call, ok := m.(*ast.CallExpr)
+						if !ok {
+							return true
+						}
+						se, ok := ast.Unparen(call.Fun).(*ast.SelectorExpr)
+						if !ok {
+							return true
+						}
+						id, ok := ast.Unparen(se.X).(*ast.Ident)
+						if !ok {
+							return true
+						}
+						ob := info.ObjectOf(id)
+						if ob == nil || !isBuilderType(ob.Type()) || (ob.Pos() >= lit.Pos() && ob.Pos() <= lit.End()) {
+							return true
+						}
+						switch se.Sel.Name {
+						case "String", "Bytes":
+							read[ob] = true
+						case "Reset", "Truncate":
+							reset[ob] = true
+						}
+						return true
+					})
+					if len(read) == 0 {
+						continue
+					}
+					// how often can the closure run?
+					calls, inLoop := 0, false
+					var stack []ast.Node
+					ast.Inspect(fd.Body, func(m ast.Node) bool {
+						if m == nil {
+							stack = stack[:len(stack)-1]
+							return true
+						}
+						stack = append(stack, m)
+						if call, ok := m.(*ast.CallExpr); ok {
+							if id, ok := ast.Unparen(call.Fun).(*ast.Ident); ok && info.ObjectOf(id) == fobj {
+								calls++
+								for _, a := range stack {
+									switch a.(type) {
+									case *ast.ForStmt, *ast.RangeStmt:
+										inLoop = true
+									}
+								}
+							}
+						}
+						return true
+					})
+					if calls < 2 && !inLoop {
+						continue
+					}
+					for ob := range read {
+						// is the builder written again after the closure was defined (otherwise a second flush adds nothing new — still a duplicate, but the rule is about growing content)
+						n++
+						c.check(reset[ob], rule, fmt.Sprintf("%s|%s flushes %s|reset-after-flush", funcKey(p, fd), fid.Name, ob.Name()), c.pos(lit.Pos()), "the builder is emptied where its content is emitted",
+							fmt.Sprintf("%s: the closure %s emits %s.String() and can run more than once (%d call site(s), in a loop: %v) but never resets %s: every later run emits what the earlier runs already emitted", fd.Name.Name, fid.Name, ob.Name(), calls, inLoop, ob.Name()))
+					}
+				}
+				return true
+			})
+		}
+	}
+	c.count("flush_closures", n)
+	if n == 0 {
+		c.ok(rule, strings.Join(rels, ",")+"|no-flush-closures", "", "no closure emits the running content of an outer builder")
+	}
 }
